@@ -906,6 +906,8 @@ def fmt(t, depth=0):
         return '%s(%s)' % (head, ', '.join(fmt(x, depth + 1) for x in t[2]))
     if k == 'snap':
         return 'snap(%s)' % fmt(t[1])
+    if k == 'hav':
+        return 'hav(%s)' % t[3]
     if k == 'str':
         return repr(t[1])
     return str(t)
